@@ -83,7 +83,7 @@ impl Str {
     #[verifier::external_body]
     pub fn new() -> (r: Str) ensures r@ == Seq::<char>::empty() { Str { s: String::new() } }
     #[verifier::external_body]
-    pub fn len(&self) -> (r: usize) { self.s.len() }
+    pub fn len(&self) -> (r: usize) ensures r as int <= isize::MAX as int { self.s.len() }   // an allocation never exceeds isize::MAX bytes (core::alloc::Layout)
     #[verifier::external_body]
     pub fn is_empty(&self) -> (r: bool) ensures r == (self@.len() == 0) { self.s.is_empty() }
     #[verifier::external_body]
